@@ -15,6 +15,9 @@ A cursor is (buffer name, offset : Int term).  Supported on top of subset K:
   x = malloc (n)                event ("malloc", [n]); value = input `malloc_ret`
   q[i] = v                      event ("st:<path of q>", [i, v])
   sizeof (e) / sizeof (T)       constant, from the spec's `sizeofs` table (filled by a compile-and-print probe)
+  *p = v                        event ("wr", [off, 1, 0, v])
+  u32 = htonl (x); memcpy (p, &u32, 4)      event ("wr", [off, 4, 1, x])
+  memcpy (p, src, n)            event ("wr", [off, n, 2, k]), k = index of the source's name in `<kernel>_srcNames`
   m_msg_set_err (m, code, strdup ("text"))   event ("m_msg_set_err", [code, k]), k = index of "text" in the
                                              generated table `<kernel>_errStrings`
 
@@ -111,7 +114,7 @@ class CursorTranslator(Translator):
             return E("rdU8 %s %s" % (c.buf, c.off.p()), 0, 255)
         if lv[0] == "elem":
             raise KError("read through a subscript")
-        if lv[0] == "path" and lv[1] in self.cursors and lv[1] not in st["mem"]:
+        if lv[0] == "path" and lv[1] in self.cursors and not isinstance(st["mem"].get(lv[1]), Cur) and t == "ptr":
             return Cur(self.cursors[lv[1]], lit(0))
         if lv[0] == "local" and isinstance(st["locals"].get(lv[1]), Cur):
             return st["locals"][lv[1]]
@@ -122,7 +125,9 @@ class CursorTranslator(Translator):
             st["events"].append('("st:%s", [%s, %s])' % (lv[1], lv[2].s, self.as_int(val).s))
             return
         if lv[0] == "deref":
-            raise KError("store through a cursor (packing is not translated)")
+            c = lv[1]
+            st["events"].append('("wr", [%s, 1, 0, %s])' % (c.off.s, self.as_int(val).s))
+            return
         if isinstance(val, Cur):
             if lv[0] == "local":
                 st["locals"][lv[1]] = val
@@ -212,6 +217,29 @@ class CursorTranslator(Translator):
         fn = self.callee(n)
         args = n["inner"][1:]
         if fn in ("memcpy", "__builtin_memcpy", "__builtin___memcpy_chk"):
+            d0 = self.rvalue(args[0], st)
+            if isinstance(d0, Cur):
+                cnt = self.as_int(self.rvalue(args[2], st))
+                sv = self.rvalue(args[1], st)
+                if isinstance(sv, Addr) and sv.lv[0] == "local":
+                    v = st["locals"].get(sv.lv[1])
+                    h = getattr(v, "hton32", None)
+                    if h is None or not (cnt.lo == cnt.hi == 4):
+                        raise KError("memcpy to the cursor from a local that does not hold htonl (x), or not 4 bytes")
+                    st["events"].append('("wr", [%s, 4, 1, %s])' % (d0.off.s, h.s))
+                else:
+                    if isinstance(sv, Addr):
+                        nm = sv.lv[1]
+                    else:
+                        s_ = self.strip(args[1])
+                        if s_["kind"] != "MemberExpr":
+                            raise KError("memcpy to the cursor from an unnamed source")
+                        nm = self.lvalue(s_, st)[1]
+                    names = self.spec.setdefault("_src_names", [])
+                    if nm not in names:
+                        names.append(nm)
+                    st["events"].append('("wr", [%s, %s, 2, %d])' % (d0.off.s, cnt.s, names.index(nm)))
+                return lit(1)
             dst = self.dst_name(args[0], st)
             src = self.rvalue(args[1], st)
             cnt = self.as_int(self.rvalue(args[2], st))
@@ -235,10 +263,14 @@ class CursorTranslator(Translator):
                 raise KError("memset of a local")
             st["events"].append('("set:%s", [%s, %s])' % (dst[1], v.s, cnt.s))
             return lit(1)
-        if fn in ("ntohl", "__bswap_32", "__builtin_bswap32", "__uint32_identity"):
+        if fn in ("ntohl", "htonl", "__bswap_32", "__builtin_bswap32", "__uint32_identity"):
             v = self.rvalue(args[0], st)
             nat = getattr(v, "native32", None)
             if nat is None:
+                if fn in ("htonl", "ntohl", "__bswap_32", "__builtin_bswap32") and isinstance(v, E):
+                    r = E("bswap32 %s" % v.p(), 0, (1 << 32) - 1)     # only ever stored through the cursor (wr:be32 carries v itself)
+                    r.hton32 = self.wrap(v, (32, False))
+                    return r
                 raise KError("ntohl of a value that was not loaded from the cursor")
             if fn == "__uint32_identity":
                 return v
